@@ -100,6 +100,47 @@ Theorem C10_deposit : forall f c tok nonce amt f' outs det,
 Proof. exact deposit_spec. Qed.
 Print Assumptions C10_deposit.
 
+(** Total energy: in every reachable state the total energy of the last globally updated week — the
+    denominator of every later claim for that week — is the sum over all participants of their recorded
+    energy decayed to that week, clamp0(amount - 7*tokens*(week - recorded week)). *)
+Theorem C10_total_energy : forall epoch ops,
+  let f := run (init_fc epoch) ops in
+  view_total_energy f (view_last_global f) =
+  psum (fun p => energy_at p (view_last_global f)) (w_prog (fc_w f)).
+Proof. intros. apply total_energy_sum. apply run_finv. apply init_finv. Qed.
+Print Assumptions C10_total_energy.
+
+(** ... together with the expiry-bucket invariant [BInv]: every bucket after the first holds exactly the
+    tokens of the users whose entry runs out in it, the first at least those, every bucket exactly its
+    users' surplus energies (amount mod 7*tokens), the locked-token total is the live users' tokens. *)
+Theorem C10_bucket_invariant : forall epoch ops,
+  let s := fc_w (run (init_fc epoch) ops) in
+  users_ok (w_last s) (w_prog s) /\
+  BInv (w_prog s) (w_last s) (w_first s) (w_btok s) (w_bsur s)
+       (aget (w_tokens s) (w_last s)) (aget (w_energy s) (w_last s)).
+Proof.
+  intros. destruct (run_finv ops _ (init_finv epoch)) as (_ & (H1 & H2 & _) & _). split; assumption.
+Qed.
+Print Assumptions C10_bucket_invariant.
+
+(** ... so that a week of the global shift is exact: the bucket's tokens never exceed the total, the
+    [safe_sub] never saturates, and the invariant holds for the next week with the next first bucket. *)
+Theorem C10_shift_exact : forall l L F bt bs T E,
+  Forall (fun up => 0 <= u_tok (snd up)) l -> BInv l L F bt bs T E ->
+  aget bt F <= T /\ (T - aget bt F) * EPOCHS_IN_WEEK + aget bs F <= E /\
+  BInv l (L + 1) (F + 1) (aset bt F 0) (aset bs F 0) (T - aget bt F)
+       (E - ((T - aget bt F) * EPOCHS_IN_WEEK + aget bs F)).
+Proof. exact shift_one. Qed.
+Print Assumptions C10_shift_exact.
+
+(** ... and a user touch (the global part of every claim / energy update) never aborts on a reachable state. *)
+Theorem C10_touch_never_aborts : forall s cw u cur,
+  WInv s -> w_last s <= cw -> 1 <= cw -> 0 <= en_tok cur ->
+  exists s2, update_user_energy s cw cur (pfind (w_prog s) u) = Ok s2 /\
+    w_prog s2 = w_prog s /\ WInvL (progress_after (w_prog s) u cw cur) s2 /\ w_last s2 = cw.
+Proof. exact update_user_energy_spec. Qed.
+Print Assumptions C10_touch_never_aborts.
+
 (** PARTIAL (interim): the arithmetic core of "never more than collected". *)
 Theorem C10_sum_partial : forall tot E t, 0 < E -> Forall (fun p => 0 <= snd p) tot ->
   forall es, Forall (fun e => 0 <= e) es -> zsum es <= E ->
